@@ -16,6 +16,10 @@ import (
 
 func main() {
 	root := os.Args[1]
+	if len(os.Args) > 2 && os.Args[2] == "shift" {
+		shiftClosures(root)
+		return
+	}
 	nfiles := 0
 	for _, d := range []string{"lambda", "cmd"} {
 		filepath.Walk(filepath.Join(root, d), func(p string, info os.FileInfo, err error) error {
@@ -66,4 +70,52 @@ func main() {
 		})
 	}
 	fmt.Printf("reversed the function declarations of %d files\n", nfiles)
+}
+
+// shiftClosures puts an unused function literal at the top of every function body that contains a function
+// literal: the literals that follow get the next number (F$2 instead of F$1, ...). The program is the same.
+func shiftClosures(root string) {
+	n := 0
+	for _, d := range []string{"lambda", "cmd"} {
+		filepath.Walk(filepath.Join(root, d), func(p string, info os.FileInfo, err error) error {
+			if err != nil || info.IsDir() || !strings.HasSuffix(p, ".go") || strings.HasSuffix(p, "_test.go") || strings.Contains(p, "/testdata/") {
+				return nil
+			}
+			fset := token.NewFileSet()
+			src, _ := os.ReadFile(p)
+			f, err := parser.ParseFile(fset, p, src, parser.ParseComments)
+			if err != nil {
+				return nil
+			}
+			var offs []int
+			for _, dcl := range f.Decls {
+				fd, ok := dcl.(*ast.FuncDecl)
+				if !ok || fd.Body == nil {
+					continue
+				}
+				has := false
+				ast.Inspect(fd.Body, func(x ast.Node) bool {
+					if _, ok := x.(*ast.FuncLit); ok {
+						has = true
+					}
+					return true
+				})
+				if has {
+					offs = append(offs, fset.Position(fd.Body.Lbrace).Offset+1)
+				}
+			}
+			if len(offs) == 0 {
+				return nil
+			}
+			out := src
+			for i := len(offs) - 1; i >= 0; i-- {
+				o := offs[i]
+				out = append(append(append([]byte(nil), out[:o]...), "\n\t_ = func() {}\n"...), out[o:]...)
+				n++
+			}
+			os.WriteFile(p, out, 0o644)
+			return nil
+		})
+	}
+	fmt.Printf("shifted the closure numbers of %d functions\n", n)
 }
